@@ -62,7 +62,7 @@ def run(ck):
             if la != lb and not (abs(la - lb) <= 1 or ck.rng.random() < 0.15): continue
             poss = [-1, 0, lb - 1, page - 1, page, 2 * page - 1, 2 * page, 511, 512]
             for d in sorted(set(p for p in poss if p < max(lb, 1))):
-                for alloc in ("ok", "fail"):
+                for alloc in ("ok", "fail", "fail0", "fail1"):
                     lines.append("feq %d %d %d 0 %s" % (la, lb, d, alloc))
                     ck.count_distinct(lines[-1])
         lines.append("feq %d %d -1 1 ok" % (la, la))
